@@ -5,8 +5,8 @@
    deserialize_value is entered (recursion limit minus frames in use).  dec_value is the same
    computation on the stream state (bytes left, number of stream.read calls, number of
    deserialize_value calls). *)
-From Model Require Import Base Utf8 Ser SerCost.
-From Proofs Require Import SerDecP C14P.
+From Model Require Import Base Utf8 Ser SerCost SerHs.
+From Proofs Require Import SerDecP SerCostP C14P.
 Open Scope Z_scope.
 
 (* 1. totality: for every byte string, registry, key-parser behaviour and number of frames the
@@ -59,6 +59,97 @@ Theorem C14_decode_closed : forall fc pk reg fuel bs v rest,
 Proof. exact decode_closed_proof. Qed.
 Print Assumptions C14_decode_closed.
 
+(* 5. the read log.  c_dec_value is the same decoder on a stream that records every read call
+      (size argument, bytes returned).  Erasing the log gives exactly dec_value: same outcome,
+      same bytes left, same number of value decodes, and the number of reads is the length of
+      the log ... *)
+Theorem C14_cost_erasure : forall fc pk reg fuel bs,
+  match c_dec_value fc pk reg fuel (cst0 bs) with
+  | (r, cs) => dec_value fc pk reg fuel (st0 bs) = (r, erase cs)
+  end.
+Proof. exact cost_erasure_proof. Qed.
+Print Assumptions C14_cost_erasure.
+
+(*    ... the bytes returned by all reads together are exactly the bytes the stream moved forward,
+      hence at most |bs|; every single read returned between 0 and its size argument (when that is
+      not negative) *)
+Theorem C14_bytes_returned : forall fc pk reg fuel bs,
+  match c_dec_value fc pk reg fuel (cst0 bs) with
+  | (r, cs) =>
+      log_bytes (c_log cs) = len bs - len (c_rem cs) /\
+      0 <= len (c_rem cs) /\ log_bytes (c_log cs) <= len bs /\
+      Forall (fun p => 0 <= snd p /\ (0 <= fst p -> snd p <= fst p)) (c_log cs)
+  end.
+Proof. exact bytes_returned_proof. Qed.
+Print Assumptions C14_bytes_returned.
+
+(* 6. length-prefixed types (str, bytes: cap 2^20; seq, map, set: cap 2^14), for ANY decoder `sub`
+      of the length (in particular the recursive one):
+      a declared length above the cap is refused in the very state the length decode left —
+      no read, no loop iteration, no further value decode; *)
+Theorem C14_cap_refused_before_loop : forall fc (sub : M value) f2 k cap s v s1 n,
+  cap_of k = Some cap -> sub s = (SOk v, s1) -> as_len v = Some n -> cap < n ->
+  dec_base fc sub f2 k s = (SErr (SE EValue), s1).
+Proof. exact cap_refused_proof. Qed.
+Print Assumptions C14_cap_refused_before_loop.
+
+(*    a declared length that is not an int is a TypeError in that same state; *)
+Theorem C14_length_not_int : forall fc (sub : M value) f2 k cap s v s1,
+  cap_of k = Some cap -> sub s = (SOk v, s1) -> as_len v = None ->
+  dec_base fc sub f2 k s = (SErr (SE EType), s1).
+Proof. exact length_not_int_proof. Qed.
+Print Assumptions C14_length_not_int.
+
+(*    the element loop ends at the first element that fails (a short read included): the state and
+      the exception are those of that element, whatever length was declared; *)
+Theorem C14_loop_stops_at_first_failure : forall (A : Type) (m : M A) i n s l si e s',
+  rep i m s = (SOk l, si) -> m si = (SErr e, s') -> (i < n)%nat ->
+  rep n m s = (SErr e, s').
+Proof. exact @rep_first_failure_proof. Qed.
+Print Assumptions C14_loop_stops_at_first_failure.
+
+(*    a negative or over-long declared bytes length (within the cap) returns exactly what is left
+      of the stream, in one read, without an error. *)
+Theorem C14_bytes_returns_what_is_left : forall fc (sub : M value) f2 s v s1 n,
+  sub s = (SOk v, s1) -> as_len v = Some n -> n <= MAXB ->
+  (n < 0 \/ len (rem s1) <= n) ->
+  dec_base fc sub f2 KBytes s = (SOk (VBytes (rem s1)), mkst [] (nrd s1 + 1) (nval s1)).
+Proof. exact bytes_returns_what_is_left_proof. Qed.
+Print Assumptions C14_bytes_returns_what_is_left.
+
+(* 7. the two messages a server decodes from peers before the handshake is complete
+      (ServerClientConnection._recvClientHello / _recvChallengeResponse: Serializable.loadb on the
+      payload with the global registry, then one attribute of the result).  Both are `decode`
+      followed by a constant amount of work, so theorems 1-6 bound them; what leaves them is:
+      hello     — the handshake continues only with a HandshakeClientHelloMessage whose version
+                  compares equal; anything else is dropped or raises a documented exception kind
+                  (AttributeError for a value of another type);
+      challenge — accepted only with an equal token; otherwise a documented kind, or NameError (the
+                  failure branch of the receiver names an undefined variable). *)
+Theorem C14_hello_total : forall fc pk reg fuel version data,
+  match recv_client_hello fc pk reg fuel version data with
+  | HsAccept v =>
+      exists t der ver base rest,
+        v = VObj t [der; ver] /\ reg_find reg t = Some (CClientHello base) /\
+        eq_int ver version = SOk true /\ decode fc pk reg fuel data = SOk (v, rest) /\
+        (reg_closed reg -> closed reg v)
+  | HsIgnore => True
+  | HsRaise e => documented e \/ exists x, pk x = Some e
+  end.
+Proof. exact hello_total_proof. Qed.
+Print Assumptions C14_hello_total.
+
+Theorem C14_challenge_total : forall fc pk reg tok fuel expected data,
+  match recv_challenge fc pk reg tok fuel expected data with
+  | HsAccept v =>
+      exists tv rest, token_of tok v = Some tv /\ eq_int tv expected = SOk true /\
+                      decode fc pk reg fuel data = SOk (v, rest) /\ (reg_closed reg -> closed reg v)
+  | HsIgnore => False
+  | HsRaise e => documented e \/ e = SName \/ exists x, pk x = Some e
+  end.
+Proof. exact challenge_total_proof. Qed.
+Print Assumptions C14_challenge_total.
+
 (* ---------- non-vacuity *)
 Definition fc0 : fconv := {| to32 := fun z => SOk z; of32 := fun z => z |}.
 Definition pk0 : value -> option serr := fun _ => None.
@@ -103,4 +194,28 @@ Example C14_ex_counters :
     = (SOk (VBytes (B [7;8;9])), 2, 4) /\
   (let '(r, s) := dec_value fc0 pk0 reg0 50 (st0 (B [0;14; 0;4;3;232; 7;8;9])) in (r, nval s, nrd s))
     = (SOk (VBytes (B [7;8;9])), 2, 4).
+Proof. vm_compute. repeat split. Qed.
+
+(* the logging decoder on the same inputs: the log of the over-long bytes value *)
+Example C14_ex_log :
+  (let '(r, cs) := c_dec_value fc0 pk0 reg0 50 (cst0 (B [0;14; 0;4;3;232; 7;8;9])) in (r, c_log cs))
+    = (SOk (VBytes (B [7;8;9])), [(1000, 3); (2, 2); (2, 2); (2, 2)]).
+Proof. vm_compute. reflexivity. Qed.
+(* handshake receivers: registry with the hello class (id 130) and the challenge class (id 132, token = field 0) *)
+Definition reg1 : registry := [(129, CEnum [VInt 1]); (130, CClientHello 13); (132, CObj [VInt 0])].
+Definition tok1 (t : Z) : option nat := if t =? 132 then Some 0%nat else None.
+Example C14_ex_hello :
+  recv_client_hello fc0 pk0 reg1 50 1 (B [0;130; 0;14;0;3;1;65; 0;3;1; 0;0;0;0]) = HsAccept (VObj 130 [VBytes (B [65]); VInt 1]) /\
+  recv_client_hello fc0 pk0 reg1 50 1 (B [0;130; 0;14;0;3;1;65; 0;3;2; 0;0;0;0]) = HsIgnore /\
+  recv_client_hello fc0 pk0 reg1 50 1 (B [0;130; 0;14;0;3;1;65; 0;3;1; 0;0;0]) = HsRaise (SE EValue) /\        (* padding short *)
+  recv_client_hello fc0 pk0 reg1 50 1 (B [0;132; 0;3;1; 0;3;1]) = HsRaise (SE EAttr) /\                        (* another class *)
+  recv_client_hello fc0 pk0 reg1 50 1 (B [0;130; 0;14;0;3;1;65; 0;129;0;3;1; 0;0]) = HsRaise (SE EAttr) /\      (* version is an enum *)
+  recv_client_hello fc0 pk0 reg1 6 1 (B [0;129; 0;129; 0;129; 0;3;1]) = HsRaise (SE ERecursion).
+Proof. vm_compute. repeat split. Qed.
+Example C14_ex_challenge :
+  recv_challenge fc0 pk0 reg1 tok1 50 77 (B [0;132; 0;3;1; 0;3;77]) = HsAccept (VObj 132 [VInt 77]) /\
+  recv_challenge fc0 pk0 reg1 tok1 50 77 (B [0;132; 0;3;1; 0;3;78]) = HsRaise SName /\
+  recv_challenge fc0 pk0 reg1 tok1 50 77 (B [0;132; 0;3;1; 0;129;0;3;77]) = HsRaise (SE EAttr) /\
+  recv_challenge fc0 pk0 reg1 tok1 50 77 (B [0;132; 0;3;2; 0;3;77; 0;3;77]) = HsRaise (SE EIndex) /\
+  recv_challenge fc0 pk0 reg1 tok1 50 77 (B [0;15]) = HsRaise (SE EAttr).
 Proof. vm_compute. repeat split. Qed.
